@@ -305,6 +305,13 @@ def rule_r4(facts, rep, rid="C04-R4"):
             if not (o and ((o["kind"] == "call" and o["f"].endswith(("Option::is_some", "Option::is_none"))) or o["kind"] == "discr")):
                 probs.append("delete_branch is guarded by something other than the presence of the key (%s)" % o)
             # on the path that skips the delete, the key must be absent: the skipping edge is the 'None' edge; accept.
+        # the previous root is looked up unconditionally: a filter between keys.get(&key) and the deletion leaves some previous versions live
+        from .common import value_chain
+        for g_ in [x for x in fb.walk(uk.body) if x.get("k") == "mcall" and (fb.callee(x) or "").endswith("HashMap::get") and self_field(x.get("recv")) == "keys"]:
+            bad_ = [m_ for m_ in value_chain(c, g_) if m_["name"] in ("filter", "filter_map", "and_then", "take_if", "take", "xor", "zip")]
+            if bad_:
+                probs.append("the previous root is dropped only if it passes `.%s(%s)`: for the versions that do not, the old root stays live next to the new one (two live roots with the same key)" % (
+                    bad_[0]["name"], fb.show(bad_[0]["args"][0])[:60] if bad_[0]["args"] else ""))
         if probs:
             rep.violation(rid, key, "; ".join(probs), uk.loc)
         else:
